@@ -5,38 +5,60 @@
        the Script semantics on the ENCODED fragment, succeeds and leaves exactly what the
        fragment's base type promises (B: one true value, 1 if unit; V: nothing; K: key above
        a verifying signature; W: the value next to the carried element), and every
-       dissatisfaction entry leaves exactly 0.  Multisig leaves (multi, multi_a and their
-       sorted forms) and raw_pk_h are not covered yet: [no_multi].
+       dissatisfaction entry leaves exactly 0.  raw_pk_h (which only arises from decoding) is not covered: [no_multi].
      * C01_witness_script_accepts: hence a table satisfaction of a B-typed script is accepted
        as a witness-script input: final stack exactly one true element.
-   The link "the implementation's output is a table entry" is established per run (the
-   driver checks membership and, independently, executes every returned witness), and the
-   model of the satisfier (Ms/Sat.v) is compared with the implementation on every run.
-   The hypotheses Hnum* are arithmetic facts about script-number encoding. *)
-From Verif Require Import Exec Ser Ast Types TypeCheck SatSpec ExecLemmas TheoremA.
-
-Definition num_facts : Prop :=
-  (forall z, (0 <= z < 2147483648)%Z -> num_operand 4 (num_encode z) = Some z) /\
-  (forall z, (0 <= z < 2147483648)%Z -> num_operand 5 (num_encode z) = Some z) /\
-  (forall z, (0 < z < 2147483648)%Z -> truthy (num_encode z) = true) /\
-  (forall v z, num_operand 4 v = Some z -> truthy v = negb (z =? 0)%Z).
+     * C01_model_satisfier_spends: the Gallina model of the library's satisfier (sat_dissat,
+       minimum, minimum_mall, thresh with its stable sort, multi, multi_a, both modes) only
+       outputs table entries, so everything it returns is accepted.
+   The model of the satisfier is compared with the implementation on every run, and
+   independently every witness the implementation returns is executed.
+   The script-number facts used (minimal encoding round-trips) are proved in ScriptNumProofs.v. *)
+From Verif Require Import Exec Ser Spend Ast Types TypeCheck SatSpec Sat ExecLemmas TheoremA SatProofs.
 
 Theorem C01_table_sound_partial :
-  forall (e : env) (ke : keyenv) (A : assets), num_facts -> assets_ok e ke A ->
+  forall (e : env) (ke : keyenv) (A : assets), assets_ok e ke A -> (forall kbs, e_sigok e kbs [] = false) ->
   forall (m : ms) (t : ty), type_of m = ROk t -> wf e ke m -> no_multi m ->
     good e ke A m t /\ shape ke A m t.
-Proof.
-  exact (fun e ke A H HA m t => theoremA e ke A (proj1 H) (proj1 (proj2 H)) (proj1 (proj2 (proj2 H)))
-                                         (proj2 (proj2 (proj2 H))) HA m t).
-Qed.
+Proof. exact theoremA_closed. Qed.
 Print Assumptions C01_table_sound_partial.
 
 Theorem C01_witness_script_accepts_partial :
-  forall (e : env) (ke : keyenv) (A : assets), num_facts -> assets_ok e ke A ->
+  forall (e : env) (ke : keyenv) (A : assets), assets_ok e ke A -> (forall kbs, e_sigok e kbs [] = false) ->
   forall (m : ms) (t : ty), type_of m = ROk t -> c_base (t_corr t) = BB -> wf e ke m -> no_multi m ->
   forall w, In w (all_sat ke A m) -> accepts e (enc ke m) w = true.
 Proof. exact witness_script_accepts. Qed.
 Print Assumptions C01_witness_script_accepts_partial.
+
+(* The model of the library's satisfier (Ms/Sat.v: both modes, every asset set) only returns
+   table entries, hence: every satisfaction the MODEL returns for a B-typed script is accepted. *)
+Theorem C01_model_satisfier_spends :
+  forall (e : env) (ke : keyenv) (A : assets) (se : senv) (f : fill),
+  linked ke A se f -> (forall ks, length (ksort ke ks) = length ks) ->
+  assets_ok e ke A -> (forall kbs, e_sigok e kbs [] = false) ->
+  forall (mall rhs : bool) (m : ms) (t : ty),
+    type_of m = ROk t -> c_base (t_corr t) = BB -> wf e ke m -> no_multi m ->
+    forall bs, satisfy ke se f mall rhs m = Some bs -> accepts e (enc ke m) (rev bs) = true.
+Proof. exact model_satisfaction_spends. Qed.
+Print Assumptions C01_model_satisfier_spends.
+
+(* Descriptor level for P2WSH: the witness [items..., script] validates against the program
+   sha256(script) under consensus + standardness rules, given that the serialised script parses
+   back (C04's ser_parse) and that the size limits hold for this script and witness (C09). *)
+Theorem C01_wsh_descriptor_spends :
+  forall (e : env) (ke : keyenv) (A : assets) (se : senv) (f : fill),
+  linked ke A se f -> (forall ks, length (ksort ke ks) = length ks) ->
+  assets_ok (with_sv e SvWitnessV0) ke A -> (forall kbs, e_sigok e kbs [] = false) ->
+  forall (mall rhs : bool) (m : ms) (t : ty),
+    type_of m = ROk t -> c_base (t_corr t) = BB -> wf (with_sv e SvWitnessV0) ke m -> no_multi m ->
+    forall bs, satisfy ke se f mall rhs m = Some bs ->
+    let sb := serialize (enc ke m) in
+    parse_script sb = Some (enc ke m) ->
+    (blen sb <= 3600)%N -> (N.of_nat (length bs) <= 100)%N -> forallb (fun it => N.leb (blen it) 80) (rev bs) = true ->
+    (count_nonpush_ops (enc ke m) <= 201)%N ->
+    verify_wsh e (e_sha256 e sb) (bs ++ [sb]) = true.
+Proof. exact model_wsh_spends. Qed.
+Print Assumptions C01_wsh_descriptor_spends.
 
 (* non-vacuity: a concrete well-typed script with a non-empty table *)
 Example C01_nonvacuous :
